@@ -31,8 +31,8 @@ class TableSuite(S.Suite):
     def compare_line(self, line, model):
         if line["op"] == "exprcol":
             return []          # numpy's elementwise arithmetic is a parameter of the model: oracle only
-        if line["op"] == "derive" and any(st[0] in ("transpose", "concatenate") for st in line["steps"]):
-            return []          # _t and concatenate are outside the model (oracle only)
+        if line["op"] == "derive" and (line.get("then") or any(st[0] in ("transpose", "concatenate") for st in line["steps"])):
+            return []          # _t, concatenate and later assignments to the derived table are outside the model (oracle only)
         if "bad-op" in model:
             return [("bad-op", None, model["bad-op"])]
         impl = line["impl"]
